@@ -30,7 +30,7 @@ ASSUMPTIONS = [
     'the leak clause recognises owner-bound watchers structurally (functools.partial with a function= keyword bound to the '
     'owner); unrecognisable callbacks are counted, not judged',
 ]
-REQUIRED = {'branch_case_ops': 200, 'ops_judged': 3000, 'replacements': 1000, 'leaf_sets': 1000, 'detached_leaf_sets': 200, 'leak_checks': 2000, 'slot_sets': 300, 'falsy_object_cases': 100, 'on_init_builders': 60,
+REQUIRED = {'batched_double_replacements': 15, 'branch_case_ops': 200, 'ops_judged': 3000, 'replacements': 1000, 'leaf_sets': 1000, 'detached_leaf_sets': 200, 'leak_checks': 2000, 'slot_sets': 300, 'falsy_object_cases': 100, 'on_init_builders': 60,
             'equal_comparing_object_cases': 50, 'batched_subobject_updates': 300, 'batched_owner_updates': 200, 'snapshots_taken': 150, 'shared_subobject_ops': 150, 'wiring_checks_inside_methods': 300}
 
 _st = {}
@@ -226,6 +226,19 @@ def branch_case(idx, rng, P, rep):
             op = ('replace-hub', 'equal' if equal else 'differing')
             top.a = new
             detached.extend([old, old.b, old.d, old.e])
+        elif c < 0.55:
+            # one batch in which the same attribute is replaced twice: what counts is what is reached before and after
+            br = rng.choice(['b', 'd', 'e'])
+            old = getattr(top.a, br)
+            mid = Leaf(x=val(), y=val())
+            back = rng.random() < 0.4
+            last = Leaf(x=old.x, y=old.y) if back else (Leaf(x=mid.x, y=mid.y) if rng.random() < 0.6 else Leaf(x=val(), y=val()))
+            op = ('batch-replace-twice', br, 'back-to-equal' if back else 'changed')
+            with param.parameterized.batch_call_watchers(top.a):
+                setattr(top.a, br, mid)
+                setattr(top.a, br, last)
+            detached.extend([old, mid])
+            rep.count('batched_double_replacements')
         elif c < 0.75:
             br = rng.choice(['b', 'd', 'e'])
             leaf = rng.choice('xy')
